@@ -19,9 +19,9 @@ func init() {
 	register(&PropInfo{
 		ID: "C09", Level: "other", MinObls: 20,
 		Explanation: "Decided from the code's shape and its linear arithmetic, not by running it: R1 every frame and every IAT-mode write is provably at most 1448 bytes long (bounds engine); R2 burst targets, paranoid write lengths and IAT delays are samples of the connection's own distributions; R3 seed adoption: the client (and only the client, and only for a 24-byte payload) resets lenDist from the received seed and iatDist from SHA-256 of it, the server sends the seed its own distribution is built from, and the three construction sites agree on bounds, bias flag and IAT-seed derivation; R4 (bounds engine) makePacket's precondition at every call site and unreachability of the panics on the Write path; R5 burst arithmetic: makePacket appends exactly 21+len(data)+padLen bytes, and on every success path of padBurst (tail + appended - target) is 0 or 1448 (ends on the target) or 1469 / 2917 (target plus one header, only when the needed padding is at most a header) — proved by Fourier-Motzkin refutation per path, for all (tail,target) pairs; R6 paranoid mode: the buffered length is at least the sampled length on every edge into the write.",
-		NotCovered: []string{"termination of the paranoid loop beyond the structural variant of R6b (finding F10)", "timing (sleep durations are checked only as the expression iatDist.Sample()*100 microseconds)", "that values in the length table are themselves within [0,1448] is C12's Sample/IntRange rule plus an assumed contract"},
-		Trusted:    []string{"go/types+go/ssa faithful", "library contracts of checker/contracts.go (bytes.Buffer, secretbox.Seal, WeightedDist.Sample in [minValue,maxValue])"},
-		Run:        runC09,
+		NotCovered:  []string{"termination of the paranoid loop beyond the structural variant of R6b (finding F10)", "timing (sleep durations are checked only as the expression iatDist.Sample()*100 microseconds)", "that values in the length table are themselves within [0,1448] is C12's Sample/IntRange rule plus an assumed contract"},
+		Trusted:     []string{"go/types+go/ssa faithful", "library contracts of checker/contracts.go (bytes.Buffer, secretbox.Seal, WeightedDist.Sample in [minValue,maxValue])"},
+		Run:         runC09,
 	})
 }
 
